@@ -458,7 +458,7 @@ def job(j):
             h = fam_meta
         else:
             h = lambda c: fam_call(c, it['prepend'], it['wrap'])                    # noqa
-        st = explore(h, max_paths=2000, timeout_ms=20000, stop_on_violation=True)
+        st = explore(h, max_paths=60000 if j.get('big') else 2000, timeout_ms=20000, stop_on_violation=True)
         tot.merge(st)
         if len(tot.violations) >= 3:
             break
@@ -537,13 +537,14 @@ def main(tier, seed):
             items.append(dict(kinds=list(kinds), prepend=0))
     for kinds in itertools.product([0, 1, 3, 6, 8], repeat=2):
         items.append(dict(kinds=list(kinds), prepend=1))
-    if tier == 'thorough':      # long signatures: ~40 parameters
-        import random
-        rnd = random.Random(4)
-        for _ in range(16):
-            items.append(dict(kinds=[rnd.choice([0, 1, 2, 3, 4, 5, 6, 7, 10, 11]) for _ in range(40)], prepend=0))
     B = 40
     jobs = [dict(fam='sig', items=items[i:i + B]) for i in range(0, len(items), B)]
+    if tier == 'thorough':      # 12 fixed long signatures (24 parameters, kinds drawn once from a seeded generator)
+        import random
+        rnd = random.Random(4)
+        for _ in range(12):
+            jobs.append(dict(fam='sig', big=True, items=[dict(
+                kinds=[rnd.choice([0, 1, 2, 3, 4, 5, 6, 7, 10, 11]) for _ in range(24)], prepend=0)]))
     witems = [dict(kinds=list(k), ikinds=list(ik)) for k in itertools.product([0, 1, 2, 7], repeat=2)
               for ik in itertools.product([0, 3, 6, 1], repeat=2)]
     jobs += [dict(fam='wrap', items=witems[i:i + B]) for i in range(0, len(witems), B)]
@@ -558,7 +559,7 @@ def main(tier, seed):
     chk.programs = nprog
     chk.require_notes('signatures', ['sig', 'lagged', 'unlagged', 'wrap', 'variants', 'meta', 'call'])
     chk.bounds = {'parameter_kinds': [str(k) for k in KINDS], 'signature_length': f'0..{nmax} exhaustive over the '
-                  'kind table' + ('; 16 signatures of 40 parameters' if tier == 'thorough' else ''),
+                  'kind table' + ('; 12 fixed signatures of 24 parameters' if tier == 'thorough' else ''),
                   'prepend': '0..1', 'wrap_depth': 1, 'variants': '1..3',
                   'outside': 'wrap nesting deeper than 1, rate names in metadata, non-numeric defaults'}
     chk.assumptions = ['default, lag and variant values are exact reals',
